@@ -26,7 +26,12 @@ pub fn check_pos(ctx: &mut Ctx, mp: &MPos, b: &Board) {
         }
         let legal = mp.legal_moves();
         if !legal.is_empty() {
-            let m = *ctx.rng.pick(&legal);
+            // prefer the special moves (their apply paths patch several sets at once)
+            let special: Vec<MMove> = legal.iter().copied().filter(|m| m.kind != MKind::Simple).collect();
+            let m = if !special.is_empty() && ctx.rng.chance(2, 3) { *ctx.rng.pick(&special) } else { *ctx.rng.pick(&legal) };
+            if matches!(m.kind, MKind::CastleK | MKind::CastleQ) {
+                ctx.feature("successor_after_castling");
+            }
             if let Some(lm) = crate::conv::to_move(&m) {
                 if let Some(Ok(nb)) = ctx.guard("make_move", &format!("pos:{}", mfen::to_xfen(mp)), || b.make_move(lm)) {
                     let want = mp.apply(&m);
